@@ -239,7 +239,7 @@ func runC06(c *Ctx) {
 				a := ci.Common().Args
 				if sl, isSl := a[1].(*ssa.Slice); isSl && sl.Low == nil && sl.High != nil {
 					if k, isK := constInt(sl.High); isK && k == 6 {
-						if sum, isC := sl.X.(*ssa.Call); isC && sum.Call.IsInvoke() && sum.Call.Method.Name() == "Sum" && sum.Call.Value == h && isNilConst(sum.Call.Args[0]) {
+						if sum, isC := sl.X.(*ssa.Call); isC && sum.Call.IsInvoke() && sum.Call.Method.Name() == "Sum" && sum.Call.Value == h && emptyPrefix(sum.Call.Args[0]) {
 							// destination is the returned signature
 							for _, ret := range retInstrs(fn) {
 								if len(ret.Results) == 1 && strings.HasPrefix(ex(a[0]), strings.TrimPrefix(ex(ret.Results[0]), "&")) {
@@ -893,12 +893,20 @@ func runC09(c *Ctx) {
 		} else {
 			r.Fail("R9.1", s.fn+" component default", c.Pos(fn.Pos()), "no `component id < 1 → 1` default")
 		}
+		// some test `version != 2` inside the `key != nil` region whose true edge only reports an error
+		// (other tests of the version, e.g. a range validation, may exist besides it)
 		k1, k1t := find("(" + s.key + " != nil)")
-		k2, k2t := find("(" + s.ver + " != 2)")
-		ok := k1 != nil && k2 != nil && edgeMustPass(fn, edge{k1.Block(), k1t}, k2.Block()) && errorsOnly(k2t) && firstGo(k2)
+		ok := false
 		pos := c.Pos(fn.Pos())
-		if k2 != nil {
-			pos = c.Pos(k2.Pos())
+		for _, k2 := range ifsIn(fn) {
+			k2t, _, hit := succWhen(k2, "("+s.ver+" != 2)")
+			if !hit || k1 == nil {
+				continue
+			}
+			if edgeMustPass(fn, edge{k1.Block(), k1t}, k2.Block()) && errorsOnly(k2t) && firstGo(k2) {
+				ok = true
+				pos = c.Pos(k2.Pos())
+			}
 		}
 		r.Check(ok, "R9.1", s.fn+" key requires v2", pos, "outgoing key with version 1 refused", "an outgoing key combined with a version other than 2 is not refused at initialisation")
 	}
@@ -1156,3 +1164,16 @@ func isConstOrNil(v ssa.Value) bool {
 // isSignedFlagValue: the value stored into IncompatibilityFlag has the signed bit (0x01) set: `x | 1` or the
 // constant 1 (V2FlagSigned).
 func isSignedFlagValue(v string) bool { return strings.HasSuffix(v, "| 1)") || v == "1" }
+
+// emptyPrefix: the argument of hash.Sum(b) contributes no bytes: nil or a slice x[:0].
+func emptyPrefix(v ssa.Value) bool {
+	if isNilConst(v) {
+		return true
+	}
+	if sl, ok := v.(*ssa.Slice); ok && sl.Low == nil && sl.High != nil {
+		if k, isK := constInt(sl.High); isK && k == 0 {
+			return true
+		}
+	}
+	return false
+}
